@@ -54,6 +54,8 @@ Inductive hop :=
 | HLease                         (* LeaseWire: returns tx[:udp_lease_start] *)
 | HAppend (bs : list byte)       (* append(lease, bs...) — lands in tx *)
 | HWriteLease                    (* Transport.Write(lease) — the in-place path *)
+| HWriteMsg (ulen : nat) (bs : list byte)
+                                 (* Transport.WriteMsg(m): m packs to bs; ulen = m's UNCOMPRESSED length *)
 | HFlushStaged                   (* StagedFlusher.FlushStaged *)
 | HPanic.                        (* the handler panics past the chain's recovery *)
 
@@ -128,6 +130,27 @@ Definition job_write_lease (j : slab) : slab * wres :=
   | Some _ => (set_txlen j1 (s_leaselen j), WStaged)
   | None => (j1, WSent (s_raddr j) (tx_get (s_tx j) (s_leaselen j)))
   end.
+(* func (j *udpJob) WriteMsg(m): out, err := m.PackBuffer(j.tx[:]); _, err = j.Write(out).
+   The library's PackBuffer (miekg/dns msg.go, packBufferWithCompressionMap) sizes by the
+   UNCOMPRESSED length of m: `if packLen := uncompressedLen + 1; len(msg) < packLen { msg =
+   make([]byte, packLen) }` — it packs where the caller said only when ulen + 1 <= len(j.tx), and
+   into an array of its own otherwise, from which it returns the (possibly much shorter)
+   compressed message [bs].  So:
+     in place — the packed bytes land in tx FIRST (whatever Write does next, burst or not), then
+                Write sees &out[0] == &j.tx[0] and stages by length alone;
+     grown    — Write(out) is the copying path of a foreign buffer (or refuses it by size).
+   That a reply which FITS the slab was therefore packed IN the slab is false: fitting is about
+   [length bs], the choice of array about [ulen]. *)
+Definition pack_in_place (ulen : nat) : bool := N.of_nat ulen <? udp_buf_size.
+Definition job_write_msg (j : slab) (ulen : nat) (bs : list byte) : slab * wres :=
+  if pack_in_place ulen
+  then let j1 := set_written (set_tx j (copy_into (s_tx j) (tag (s_lease j) bs))) true in
+       if udp_buf_size <? N.of_nat (length bs) then (j1, WTooLarge)   (* length bs <= ulen: does not arise *)
+       else match s_burst j with
+            | Some _ => (set_txlen j1 (length bs), WStaged)
+            | None => (j1, WSent (s_raddr j) (tag (s_lease j) bs))
+            end
+  else job_write j bs.
 (* LeaseWire + append.  udpJob.LeaseWire is TRANSLATED (Gen.C10.go_udpJob_LeaseWire): it returns
    j.tx[:0] (or nil for a capacity beyond the buffer) — Proofs_Edns.gen_udpJob_LeaseWire *)
 Definition udp_lease_start : N := 0.
@@ -321,6 +344,7 @@ Inductive act :=
 | AHLease (sid : nat)
 | AHAppend (sid : nat) (bs : list byte)
 | AHWriteLease (sid : nat)
+| AHWriteMsg (sid : nat) (ulen : nat) (bs : list byte)   (* Transport.WriteMsg: PackBuffer(j.tx[:]) + Write(out) *)
 | AHFlushStaged (sid : nat)
 | AHReject (sid : nat) (notimp : bool)                 (* rejectInPlace *)
 | AEndServe (sid : nat)                                (* serve's deferred terminal (+ worker's `if burst.full()` flush) *)
@@ -420,6 +444,7 @@ Definition ustep (c : cfg) (s : ust) (a : act) : res :=
       else Disabled
   | AHWrite sid bs => handler_write c s sid (fun j => job_write j bs)
   | AHWriteLease sid => handler_write c s sid job_write_lease
+  | AHWriteMsg sid ulen bs => handler_write c s sid (fun j => job_write_msg j ulen bs)
   | AHReject sid notimp => handler_write c s sid (fun j => job_write j (reject_bytes (s_rx j) notimp))
   | AHLease sid =>
       match get_slab s sid, serv_find sid (u_serv s) with
@@ -515,6 +540,7 @@ Fixpoint hop_acts (sid : nat) (l : list hop) : list act * bool (* panicked *) :=
         | HLease => AHLease sid
         | HAppend bs => AHAppend sid bs
         | HWriteLease => AHWriteLease sid
+        | HWriteMsg ulen bs => AHWriteMsg sid ulen bs
         | HFlushStaged => AHFlushStaged sid
         | HPanic => AHLease sid
         end) :: acts, p)
